@@ -271,7 +271,7 @@ theorem ds9_cond_nil (agent : Bytes) (hdr : MHdr) (recs : List Record) (ctx : Ip
     (hstart : ctx.start ≤ r.cnt) :
     eval addr ⟨r, c⟩ (dsEnv agent hdr recs ctx .nil ok j8 j9 j10 j11 j12 j13) (ds 9).loopCond =
       some (.bool (Ipfix.contCond ctx r)) := by
-  have hs1 := subAt_int r.cnt ctx.start hstart
+  have hs1 := subV_int r.cnt ctx.start hstart
   have hs2 := subAt_u16_lt ctx.len ((r.cnt - ctx.start) % 65536) (Nat.mod_lt _ (by decide))
   unfold Ipfix.contCond Ipfix.consumed16
   by_cases hA : ctx.len > (r.cnt - ctx.start) % 65536 <;> by_cases hB : r.rem.length ≥ Ipfix.minLeft ctx <;>
@@ -465,7 +465,7 @@ theorem ds_tail (agent : Bytes) (hdr : MHdr) (ctx : Ipfix.Ctx) (st1 : Ipfix.St) 
         (dsEnv agent hdr st1.recs ctx (IpfixProg.errV e1) ok j8 j9 j10 j11 j12 j13))
       [IpfixProg.errV (Ipfix.skipRest ctx st1 e1).2] (S (Ipfix.skipRest ctx st1 e1).1)
       (.msg agent hdr (Ipfix.skipRest ctx st1 e1).1.recs) := by
-  have hs1 := subAt_int st1.r.cnt ctx.start hstart
+  have hs1 := subV_int st1.r.cnt ctx.start hstart
   have hs2 := subAt_u16_lt ctx.len ((st1.r.cnt - ctx.start) % 65536) (Nat.mod_lt _ (by decide))
   unfold Ipfix.skipRest Ipfix.consumed16 RetOut
   by_cases hl : (ctx.len + 65536 - (st1.r.cnt - ctx.start) % 65536) % 65536 > 0
